@@ -3,10 +3,12 @@
 (* cmd/go-critic/check.go checkPackage/checkFile: for every file the main  *)
 (* goroutine acquires one of K semaphore tokens per checker and spawns a   *)
 (* goroutine; goroutine (f,i) runs checker i on file f, writes its private *)
-(* slot, signals the WaitGroup and only then releases its token (so a      *)
-(* goroutine of file f may still hold a token while main already works on  *)
-(* file f+1); main waits for the WaitGroup, prints the slots in index      *)
-(* order and moves on (writing the shared context in SetFileInfo).         *)
+(* slot, signals the WaitGroup and only then releases its token.  The      *)
+(* semaphore is created PER FILE (checkFile makes a new channel), so a     *)
+(* goroutine of file f that has not yet released its token does not delay  *)
+(* file f+1: `tokens` counts the tokens of the current file's semaphore.   *)
+(* Main waits for the WaitGroup, prints the slots in index order and moves *)
+(* on (writing the shared context in SetFileInfo).                         *)
 (*                                                                         *)
 (* What-if constants (TRUE = what the code does):                          *)
 (*   WaitBeforePrint   wg.Wait() before printing                           *)
@@ -28,7 +30,8 @@ Ev(e) == sched' = Append(sched, e)
 \* one action per instrumented point of the code (so that recorded events map 1:1 onto actions)
 SetFile == /\ mainPc = "idle" /\ file < NFiles
            /\ file' = file + 1 /\ ctxFile' = file + 1 /\ wg' = N /\ nextI' = 1 /\ slot' = [i \in Idx |-> <<>>]
-           /\ mainPc' = "spawn" /\ UNCHANGED <<tokens, gpc, out, sched>>
+           /\ tokens' = 0                                  \* a fresh semaphore for this file
+           /\ mainPc' = "spawn" /\ UNCHANGED <<gpc, out, sched>>
 Acquire == /\ mainPc = "spawn" /\ nextI <= N /\ tokens < K
            /\ tokens' = tokens + 1 /\ gpc' = [gpc EXCEPT ![<<file, nextI>>] = "spawned"] /\ nextI' = nextI + 1
            /\ Ev(<<"acq", file, nextI>>) /\ UNCHANGED <<mainPc, file, wg, slot, out, ctxFile>>
@@ -47,10 +50,12 @@ GEnd(g) == /\ gpc[g] = "checking" /\ gpc' = [gpc EXCEPT ![g] = "checked"]
            /\ Ev(<<"end", g[1], g[2]>>) /\ UNCHANGED <<mainPc, nextI, file, tokens, wg, out, ctxFile>>
 GDone(g) == /\ gpc[g] = "checked" /\ wg' = wg - 1 /\ gpc' = [gpc EXCEPT ![g] = "wgdone"] /\ Ev(<<"done", g[1], g[2]>>)
             /\ UNCHANGED <<mainPc, nextI, file, tokens, slot, out, ctxFile>>
-GRelease(g) == /\ ReleaseAfterCheck /\ gpc[g] = "wgdone" /\ tokens' = tokens - 1 /\ gpc' = [gpc EXCEPT ![g] = "gone"] /\ Ev(<<"rel", g[1], g[2]>>)
+GRelease(g) == /\ ReleaseAfterCheck /\ gpc[g] = "wgdone"
+               /\ tokens' = IF g[1] = file THEN tokens - 1 ELSE tokens     \* an older file's semaphore is not this one
+               /\ gpc' = [gpc EXCEPT ![g] = "gone"] /\ Ev(<<"rel", g[1], g[2]>>)
                /\ UNCHANGED <<mainPc, nextI, file, wg, slot, out, ctxFile>>
 \* what-if: token released as soon as the goroutine starts
-GEarlyRelease(g) == /\ ~ReleaseAfterCheck /\ gpc[g] = "spawned" /\ tokens' = tokens - 1
+GEarlyRelease(g) == /\ ~ReleaseAfterCheck /\ gpc[g] = "spawned" /\ tokens' = IF g[1] = file THEN tokens - 1 ELSE tokens
                     /\ gpc' = [gpc EXCEPT ![g] = "checking"] /\ Ev(<<"begin", g[1], g[2]>>)
                     /\ UNCHANGED <<mainPc, nextI, file, wg, slot, out, ctxFile>>
 GExit(g) == /\ ~ReleaseAfterCheck /\ gpc[g] = "wgdone" /\ gpc' = [gpc EXCEPT ![g] = "gone"]
